@@ -98,6 +98,42 @@ theorem wic_total (p q : Int) (ws : List Int) (hp : 0 ≤ p) (hpq : p < q) (hs :
 
 example : wic 5 8 [2, 1, 2, 1] = some 2 := by decide
 
+/-- for rates with a positive sum the code's normalised choice is `wic` on the raw rates -/
+theorem wicN_pos (p q : Int) (ws : List Int) (h : 0 < ws.sum) : wicN p q ws = wic p q ws := by
+  unfold wicN
+  rw [if_neg (by omega), if_pos h]
+
+/-- the choice fails exactly when the rates sum to zero — the code's `ZeroDivisionError` — for every draw `0 ≤ u < 1` -/
+theorem wicN_none_iff (p q : Int) (ws : List Int) (hp : 0 ≤ p) (hpq : p < q) : wicN p q ws = none ↔ ws.sum = 0 := by
+  unfold wicN
+  constructor
+  · intro h
+    split at h
+    · assumption
+    · rename_i hne
+      exfalso
+      split at h
+      · rename_i hpos
+        obtain ⟨i, hi⟩ := Aux.wicLoop_total q ws (p * ws.sum) 0 (Int.mul_nonneg hp (by omega)) (by
+          have := Int.mul_lt_mul_of_pos_right hpq hpos
+          rw [Int.mul_comm q] at this; exact this)
+        unfold wic at h; rw [hi] at h; simp at h
+      · rename_i hnpos
+        have hneg : 0 < (ws.map (fun w => -w)).sum := by
+          have : (ws.map (fun w => -w)).sum = - ws.sum := by
+            clear h hne hnpos
+            induction ws with
+            | nil => simp
+            | cons a l ih => simp [ih]; omega
+          omega
+        obtain ⟨i, hi⟩ := Aux.wicLoop_total q _ (p * (ws.map (fun w => -w)).sum) 0 (Int.mul_nonneg hp (by omega)) (by
+          have := Int.mul_lt_mul_of_pos_right hpq hneg
+          rw [Int.mul_comm q] at this; exact this)
+        unfold wic at h; rw [hi] at h; simp at h
+  · intro h; simp [h]
+
+example : wicN 1 2 [3, -3] = none ∧ wicN 1 8 [-1, -3] = some 0 ∧ wicN 7 8 [-1, -3] = some 1 ∧ wicN 1 2 [2, -1] = some 0 := by decide
+
 /-! ### growing trees: bookkeeping lemmas -/
 namespace Aux
 
@@ -431,6 +467,8 @@ theorem event_not_fuel (P : BDParams) (s : BDState) (ds : List Draw) : bdEvent P
   unfold bdEvent
   split
   · simp
+  split
+  · simp
   · split
     · simp
     · split
@@ -628,6 +666,8 @@ theorem event_inv (P : BDParams) (hG : GoodStart P) (s s' : BDState) (ds ds' : L
   unfold bdEvent at h
   split at h
   · simp at h
+  split at h
+  · simp at h
   · rename_i p q ds2
     split at h
     · simp at h
@@ -699,6 +739,8 @@ theorem bd_done (P : BDParams) (s s' : BDState) (ds ds' : List Draw) (h : bdIter
         · rename_i w ds1 _ _
           exfalso
           unfold bdEvent at h
+          split at h
+          · simp at h
           split at h
           · simp at h
           · split at h
@@ -2610,6 +2652,11 @@ theorem sevent (P : BDParams) (hG : GoodStart P) (s : BDState) (ds : List Draw) 
     ∀ s' ds', bdEvent P s ds = .ok (.cont s' ds') → SInv P s' ∧ (∀ x ∈ ds', x ∈ ds) := by
   unfold bdEvent
   split
+  · rename_i hz
+    have hr0 := rates_props s.extant (fun t ht => by have := hS.rates t ht; omega)
+    have := hr0.2.2 hS.ne
+    simp at hz; omega
+  split
   · exact ⟨by simp, by intro s' ds' h; simp at h⟩
   · rename_i p q ds2
     split
@@ -2620,7 +2667,7 @@ theorem sevent (P : BDParams) (hG : GoodStart P) (s : BDState) (ds : List Draw) 
       obtain ⟨k, hk⟩ := wic_total p q (rates s.extant) (by omega) (by omega) (hr.2.2 hS.ne)
       have hklt := wic_lt_length p q _ k (by omega) hr.2.1 hk
       rw [rates_length] at hklt
-      rw [hk]
+      rw [wicN_pos p q _ (hr.2.2 hS.ne), hk]
       simp only
       have hidx : k / 2 < s.extant.length := by omega
       rw [List.getElem?_eq_getElem hidx]
@@ -2699,6 +2746,8 @@ theorem death_not_arg (P : BDParams) (s : BDState) (nd : Tip) (rest : List Tip) 
   · split <;> simp
 theorem event_not_arg (P : BDParams) (s : BDState) (ds : List Draw) : bdEvent P s ds ≠ .error .arg := by
   unfold bdEvent
+  split
+  · simp
   split
   · simp
   · split
@@ -2814,6 +2863,11 @@ theorem bd_iter_progress (P : BDParams) (hG : GoodStart P) (s : BDState) (w p q 
         ⟨hS.nodup, hS.fresh, fun t ht => by simp [Aux.hasAlive_addAlive, hS.alive t ht], hS.rates, hS.ne, hS.nextLB⟩
       generalize hs1 : ({ s with tree := s.tree.addAlive w, total := s.total + w } : BDState) = s1 at hS1
       unfold bdEvent
+      split
+      · rename_i hz
+        have hr0 := Aux.rates_props s1.extant (fun t ht => by have := hS1.rates t ht; omega)
+        have := hr0.2.2 hS1.ne
+        simp at hz; omega
       simp only
       have hcond : (decide (q ≤ 0) || decide (p < 0) || decide (p ≥ q)) = false := by simp; omega
       rw [hcond]
@@ -2822,7 +2876,7 @@ theorem bd_iter_progress (P : BDParams) (hG : GoodStart P) (s : BDState) (w p q 
       obtain ⟨k, hk⟩ := wic_total p q (rates s1.extant) hp hpq (hr.2.2 hS1.ne)
       have hklt := wic_lt_length p q _ k hp hr.2.1 hk
       rw [Aux.rates_length] at hklt
-      rw [hk]
+      rw [wicN_pos p q _ (hr.2.2 hS1.ne), hk]
       simp only
       have hidx : k / 2 < s1.extant.length := by omega
       rw [List.getElem?_eq_getElem hidx]
@@ -3711,6 +3765,8 @@ theorem xevent (P : BDParams) (hG : GoodStart P) (s s' : BDState) (ds ds' : List
   unfold bdEvent at h
   split at h
   · simp at h
+  split at h
+  · simp at h
   · split at h
     · simp at h
     split at h
@@ -4417,6 +4473,8 @@ theorem ginv_wait (N : Nat) (g : GState) (w : Int) (hI : GInv N g) :
 theorem ginv_event (P : BDParams) (N : Nat) (g : GState) (ds : List Draw) (hst : P.start = .tip 0 0 true) (hI : GInv N g) :
     (∀ g' ds', gsaEvent P g ds = .ok (.cont g' ds') → GInv N g') ∧ (∀ g' ds', gsaEvent P g ds = .ok (.done g' ds') → GFin N g') := by
   unfold gsaEvent
+  split
+  · simp
   split
   · simp
   · split
@@ -5246,5 +5304,797 @@ theorem dbd_only_script_errors (P : DParams) (ds : List Draw) (e : Err) (h : dbd
 
 example : (match dbdRun { b := 2, d := 1, rs := 4, ntax := some 3, maxGens := none, repeatOK := false } [.u 1 8, .g 0] with
     | .error e => some e | _ => none) = some Err.draws := by decide
+
+
+/-! ### last round: error characterisation of the GSA run -/
+
+
+/-- "only a script error": the run stopped because the draw list was too short or served a draw of the wrong kind -/
+def Err.script (e : Err) : Prop := e = .draws ∨ e = .kind
+
+namespace Aux
+/-- one pass of the GSA loop from a state satisfying the lookup invariant: never an internal failure, a continued pass keeps
+the invariant and consumes a draw -/
+theorem gs_death (P : BDParams) (hG : GoodStart P) (g : GState) (nd : Tip) (ds : List Draw) (hS : SInv P g.st) (hnd : nd ∈ g.st.extant) :
+    (∀ e, gsaDeath P g nd (removeTip nd.id g.st.extant) ds = .error e → False) ∧
+    ∀ g' ds', gsaDeath P g nd (removeTip nd.id g.st.extant) ds = .ok (.cont g' ds') → SInv P g'.st ∧ ds' = ds := by
+  obtain ⟨t, ht⟩ := killFirst_some nd.id g.st.tree (hS.alive nd hnd)
+  have a1 := killFirst_hasAlive _ _ _ ht
+  have hsub := removeTip_sublist nd.id g.st.extant
+  unfold gsaDeath
+  split
+  · split
+    · exact ⟨by simp, by simp⟩
+    · refine ⟨by simp, ?_⟩
+      intro g' ds' h
+      simp at h
+      obtain ⟨rfl, rfl⟩ := h
+      exact ⟨init_sinv_at P hG g.st.next hS.nextLB, rfl⟩
+  · rename_i hne
+    rw [ht]
+    refine ⟨by simp, ?_⟩
+    intro g' ds' h
+    simp at h
+    obtain ⟨rfl, rfl⟩ := h
+    refine ⟨⟨hS.nodup.sublist (hsub.map Tip.id), fun t0 h0 => hS.fresh t0 (hsub.subset h0), ?_, fun t0 h0 => hS.rates t0 (hsub.subset h0), ?_, hS.nextLB⟩, rfl⟩
+    · intro t0 h0
+      exact a1 t0.id (removeTip_ne nd.id g.st.extant hS.nodup t0 h0) (hS.alive t0 (hsub.subset h0))
+    · intro he; simp at he; simp [he] at hne
+
+theorem gs_event (P : BDParams) (hG : GoodStart P) (g : GState) (ds : List Draw) (hb : 0 < P.b) (hd : 0 ≤ P.d) (hS : SInv P g.st)
+    (hg : GaussNonneg ds) :
+    (∀ e, gsaEvent P g ds = .error e → Err.script e) ∧
+    ∀ g' ds', gsaEvent P g ds = .ok (.cont g' ds') → SInv P g'.st ∧ (∀ x ∈ ds', x ∈ ds) ∧ ds'.length < ds.length := by
+  unfold gsaEvent
+  split
+  · rename_i hz
+    have hr0 := rates_props g.st.extant (fun t ht => by have := hS.rates t ht; omega)
+    have := hr0.2.2 hS.ne
+    simp at hz; omega
+  split
+  · exact ⟨by intro e h; simp at h; simp [Err.script, ← h], by simp⟩
+  · rename_i p q ds2
+    split
+    · exact ⟨by intro e h; simp at h; simp [Err.script, ← h], by simp⟩
+    · rename_i hpq
+      simp at hpq
+      have hr := rates_props g.st.extant (fun t ht => by have := hS.rates t ht; omega)
+      obtain ⟨k, hk⟩ := wic_total p q (rates g.st.extant) (by omega) (by omega) (hr.2.2 hS.ne)
+      have hklt := wic_lt_length p q _ k (by omega) hr.2.1 hk
+      rw [rates_length] at hklt
+      rw [wicN_pos p q _ (hr.2.2 hS.ne), hk]
+      simp only
+      have hidx : k / 2 < g.st.extant.length := by omega
+      rw [List.getElem?_eq_getElem hidx]
+      simp only
+      have hnd : g.st.extant[k / 2] ∈ g.st.extant := List.getElem_mem hidx
+      have hg2 : GaussNonneg ds2 := fun v hv => hg v (by simp [hv])
+      split
+      · obtain ⟨h1, h2⟩ := sbirth P g.st _ ds2 hS hnd hg2
+        split
+        · rename_i e he
+          refine ⟨?_, by simp⟩
+          intro e' h
+          simp at h; subst h
+          -- bdBirth errors: draws / kind / state; state excluded
+          have hns := h1
+          unfold bdBirth at he
+          split at he
+          · split at he
+            · simp at he; subst he; exact absurd (by unfold bdBirth; simp_all) hns
+            · simp at he
+          · split at he <;> (simp at he; simp [Err.script, ← he])
+        · rename_i s ds3 hb'
+          refine ⟨by simp, ?_⟩
+          intro g' ds' h
+          simp at h
+          obtain ⟨rfl, rfl⟩ := h
+          obtain ⟨a, b⟩ := h2 s ds3 hb'
+          obtain ⟨_, _, ds4, e1, _⟩ := bdBirth_shape _ _ _ _ _ hb'
+          refine ⟨a, fun x hx => by simp [b x hx], ?_⟩
+          -- four gauss draws were consumed
+          unfold bdBirth at hb'
+          split at hb'
+          · split at hb'
+            · simp at hb'
+            · simp at hb'
+              obtain ⟨_, rfl⟩ := hb'
+              simp; omega
+          · simp at hb'
+        · rename_i s ds3 hb'
+          obtain ⟨_, _, _, e1, _⟩ := bdBirth_shape _ _ _ _ _ hb'
+          simp at e1
+      · obtain ⟨h1, h2⟩ := gs_death P hG g _ ds2 hS hnd
+        refine ⟨fun e h => (h1 e h).elim, ?_⟩
+        intro g' ds' h
+        obtain ⟨a, rfl⟩ := h2 g' ds' h
+        exact ⟨a, fun x hx => by simp [hx], by simp⟩
+  · exact ⟨by intro e h; simp at h; simp [Err.script, ← h], by simp⟩
+end Aux
+
+namespace Aux
+theorem gs_iter (P : BDParams) (hG : GoodStart P) (N G : Nat) (g : GState) (ds : List Draw) (hb : 0 < P.b) (hd : 0 ≤ P.d)
+    (hS : SInv P g.st) (hg : GaussNonneg ds) :
+    (∀ e, gsaIter P N G g ds = .error e → Err.script e) ∧
+    ∀ g' ds', gsaIter P N G g ds = .ok (.cont g' ds') → SInv P g'.st ∧ GaussNonneg ds' ∧ ds'.length < ds.length := by
+  unfold gsaIter
+  split
+  · exact ⟨by simp, by simp⟩
+  · split
+    · exact ⟨by intro e h; simp at h; simp [Err.script, ← h], by simp⟩
+    · rename_i w ds1
+      split
+      · exact ⟨by intro e h; simp at h; simp [Err.script, ← h], by simp⟩
+      · simp only
+        have hS1 : SInv P { g.st with tree := g.st.tree.addAlive w, total := g.st.total + w } :=
+          ⟨hS.nodup, hS.fresh, fun t ht => by simp [hasAlive_addAlive, hS.alive t ht], hS.rates, hS.ne, hS.nextLB⟩
+        have hg1 : GaussNonneg ds1 := fun v hv => hg v (by simp [hv])
+        split
+        · obtain ⟨h1, h2⟩ := gs_event P hG
+            { st := { g.st with tree := g.st.tree.addAlive w, total := g.st.total + w },
+              slices := if g.st.extant.length == N then g.slices ++ [(w, g.st.tree.aliveTips)] else g.slices } ds1 hb hd hS1 hg1
+          refine ⟨h1, ?_⟩
+          intro g' ds' h
+          obtain ⟨a, b, c⟩ := h2 g' ds' h
+          exact ⟨a, fun v hv => hg1 v (b _ hv), by simp; omega⟩
+        · refine ⟨by simp, ?_⟩
+          intro g' ds' h
+          simp at h
+          obtain ⟨rfl, rfl⟩ := h
+          exact ⟨hS1, hg1, by simp⟩
+    · exact ⟨by intro e h; simp at h; simp [Err.script, ← h], by simp⟩
+
+theorem gs_loop (P : BDParams) (hG : GoodStart P) (N G : Nat) (hb : 0 < P.b) (hd : 0 ≤ P.d) : ∀ (f : Nat) (g : GState) (ds : List Draw),
+    SInv P g.st → GaussNonneg ds → ds.length < f → ∀ e, gsaLoop P N G f g ds = .error e → Err.script e := by
+  intro f
+  induction f with
+  | zero => intro g ds _ _ h; omega
+  | succ f ih =>
+    intro g ds hS hg hlen e h
+    obtain ⟨h1, h2⟩ := gs_iter P hG N G g ds hb hd hS hg
+    simp only [gsaLoop] at h
+    split at h
+    · rename_i e' he
+      simp at h; subst h
+      exact h1 e' he
+    · simp at h
+    · rename_i g1 ds1 hit
+      obtain ⟨a, b, c⟩ := h2 g1 ds1 hit
+      exact ih g1 ds1 a b (by omega) e h
+
+/-- when every recorded duration is zero no slice is ever selected -/
+theorem selectSlice_zero (q : Int) : ∀ (sl : List (Int × List (Nat × Int))) (r : Int), 0 ≤ r → (∀ s ∈ sl, s.1 = 0) →
+    selectSlice q r sl none = none := by
+  intro sl
+  induction sl with
+  | nil => intro r _ _; simp [selectSlice]
+  | cons a rest ih =>
+    intro r hr hz
+    have ha : a.1 = 0 := hz a (by simp)
+    simp only [selectSlice, ha, Int.zero_mul, Int.sub_zero]
+    rw [if_neg (by omega)]
+    exact ih r hr (fun s hs => hz s (by simp [hs]))
+end Aux
+
+/-- **errors of a GSA run**: with admissible rates (`birth > 0`, `death ≥ 0`), `gauss` draws that never lower a rate, a fresh
+start tree and `1 ≤ N ≤ G`, a run of `birth_death_tree(num_extant_tips=N, gsa_ntax=G)` fails either on its draw script
+(`draws` / `kind`) or — the single internal failure — with `state` because the recorded time slices have total duration `≤ 0`
+(no slice at all, or only zero waiting times): this is the code's own `assert(selected_slice is not None)`.  Every other lookup
+(weighted choice, node to split / kill, cutting back to the selected slice, pruning) succeeds and the fuel suffices. -/
+theorem gsa_only_script_errors_or_assert (P : BDParams) (N G n0 : Nat) (ds : List Draw) (e : Err) (hst : P.start = .tip 0 0 true)
+    (hb : 0 < P.b) (hd : 0 ≤ P.d) (hg : GaussNonneg ds) (hN : 1 ≤ N) (hNG : N ≤ G) (h : gsaRun P N G n0 ds = .error e) :
+    e = .draws ∨ e = .kind ∨
+    (e = .state ∧ ∃ g rest, gsaLoop P N G (ds.length + 1) { st := bdInit P, slices := [] } ds = .ok (g, rest) ∧
+       (g.slices.map (·.1)).sum ≤ 0) := by
+  have hG := goodStart_default P hst
+  unfold gsaRun at h
+  rw [if_neg (by omega)] at h
+  split at h
+  · rename_i e' he
+    simp at h; subst h
+    rcases Aux.gs_loop P hG N G hb hd _ _ ds (bd_init_sinv P hG) hg (by omega) e' he with h | h
+    · exact Or.inl h
+    · exact Or.inr (Or.inl h)
+  · rename_i g rest hl
+    have h0 : GInv N { st := bdInit P, slices := [] } :=
+      ⟨by simp [bdInit, hst, BT.aliveIds, BT.aliveCount], ⟨0, by simp [bdInit, hst, BT.aliveDepths]⟩, by simp [bdInit, hst, BT.ids],
+       by simp [bdInit, hst, BT.ids, BT.maxId], by simp [bdInit, hst, BT.noUn], by simp⟩
+    have hfin := Aux.ginv_loop P N G hst _ _ _ _ _ h0 hl
+    split at h
+    · rename_i p q rest'
+      split at h
+      · simp at h; exact Or.inr (Or.inl h.symm)
+      rename_i hpq
+      simp at hpq
+      simp only at h
+      split at h
+      · -- no slice selected: the assert
+        rename_i hsel
+        simp at h; subst h
+        refine Or.inr (Or.inr ⟨rfl, g, _, hl, ?_⟩)
+        by_cases hpos : 0 < (g.slices.map (·.1)).sum
+        · exfalso
+          have hne : g.slices ≠ [] := by intro he; simp [he] at hpos
+          have := gsa_selects_last p q g.slices hne (by omega) (by omega) hpos
+          rw [hsel] at this
+          cases hgl : g.slices.getLast? with
+          | none => simp [List.getLast?_eq_none_iff] at hgl; exact hne hgl
+          | some x => rw [hgl] at this; simp at this
+        · omega
+      · rename_i w snap hsel
+        split at h
+        · simp at h
+        have hmem : (w, snap) ∈ g.slices := by
+          rcases Aux.selectSlice_mem _ _ _ (w, snap) (w, snap) trivial none hsel with h | h
+          · exact h
+          · simp at h
+        obtain ⟨T, N0, e1, e2, _, e4, _, e6⟩ := hfin (w, snap) hmem
+        simp only at e1
+        subst e1
+        rw [Aux.cutBackAll_ext N0 w T g.st.tree e4 e6] at h
+        simp only at h
+        split at h
+        · rename_i e' hf
+          simp at h; subst h
+          rcases Aux.finish_errors n0 _ _ e' (by rw [Aux.aliveCount_addAlive, e2]; exact hN) hf with h | h
+          · exact Or.inl h
+          · exact Or.inr (Or.inl h)
+        · simp at h
+    · simp at h; exact Or.inl h.symm
+    · simp at h; exact Or.inr (Or.inl h.symm)
+
+/-- the assert does occur: one slice of zero duration (N = 1, G = 2, first waiting time 0) -/
+example : (match gsaRun { nTips := some 1, maxTime := none, b := 2, d := 1 } 1 2 0
+    [.w 0, .u 1 8, .g 0, .g 0, .g 0, .g 0, .u 1 2, .perm [], .perm [0]] with | .error e => some e | .ok _ => none) = some Err.state := by decide
+
+/-- the converse: when every recorded slice has zero duration no slice is selected, whatever the uniform draw -/
+theorem gsa_assert_when_zero_duration (p q : Int) (sl : List (Int × List (Nat × Int))) (hz : ∀ s ∈ sl, s.1 = 0) :
+    selectSlice q (p * (sl.map (·.1)).sum) sl none = none := by
+  have : (sl.map (·.1)).sum = 0 := by
+    induction sl with
+    | nil => simp
+    | cons a rest ih => simp [hz a (by simp), ih (fun s hs => hz s (by simp [hs]))]
+  rw [this, Int.mul_zero]
+  exact Aux.selectSlice_zero q sl 0 (by omega) hz
+
+
+/-! ### last round: progress of the fast variant and of `coalesce_nodes` -/
+
+
+/-- **progress of the loop body, fast variant**: from a state satisfying the lookup invariant, a waiting time `w ≥ 0`, an index
+of an extant tip and a uniform draw `0 ≤ p/q < 1` always let a pass through the body of `fast_birth_death_tree` complete -/
+theorem fbd_iter_progress (P : BDParams) (s : FState) (w ti p q : Int) (rest : List Draw) (hS : FSInv s) (hw : 0 ≤ w)
+    (hti : 0 ≤ ti) (hti' : ti.toNat < s.extant.length) (hp : 0 ≤ p) (hpq : p < q) :
+    ∃ st, fbdIter P s (.w w :: .rint ti :: .u p q :: rest) = .ok st := by
+  unfold fbdIter
+  split
+  · exact ⟨_, rfl⟩
+  · simp only
+    rw [if_neg (by omega)]
+    split
+    · unfold fbdEvent
+      simp only
+      have hcond : (decide (q ≤ 0) || decide (p < 0) || decide (p ≥ q)) = false := by simp; omega
+      rw [hcond]
+      simp only [Bool.false_eq_true, if_false]
+      rw [if_neg (by omega)]
+      rw [List.getElem?_eq_getElem hti']
+      simp only
+      have hmem : s.extant[ti.toNat] ∈ s.extant := List.getElem_mem hti'
+      split
+      · obtain ⟨t, ht⟩ := Aux.splitFast_some s.extant[ti.toNat] s.next (s.next + 1) (s.total + w) s.tree (hS.alive _ hmem)
+        simp only [ht]
+        exact ⟨_, rfl⟩
+      · split
+        · exact ⟨_, rfl⟩
+        · obtain ⟨t, ht⟩ := Aux.killFirst_some s.extant[ti.toNat] s.tree (hS.alive _ hmem)
+          simp only [ht]
+          exact ⟨_, rfl⟩
+    · exact ⟨_, rfl⟩
+
+/-- the lookup invariant of the fast variant is kept by every pass (public form of `Aux.fsiter`) -/
+theorem fbd_sinv_step (P : BDParams) (s s' : FState) (ds ds' : List Draw) (hS : FSInv s)
+    (h : fbdIter P s ds = .ok (.cont s' ds')) : FSInv s' := (Aux.fsiter P s ds hS).2.2.2 s' ds' h
+
+example : ∃ st, fbdIter { nTips := some 3, maxTime := none, b := 2, d := 1 } fInit [.w 4, .rint 0, .u 1 8] = .ok st :=
+  fbd_iter_progress _ _ 4 0 1 8 [] fbd_init_sinv (by decide) (by decide) (by decide) (by decide) (by decide)
+
+/-- the events of a script stay within the period: each waiting time (in time units) fits into what remains -/
+def Within (u : Int) : Option Int → List (Int × Nat × Nat) → Prop
+  | none, _ => True
+  | some _, [] => True
+  | some r, e :: es => e.1 * u ≤ r ∧ Within u (some (r - e.1 * u)) es
+
+/-- `time_remaining` after the events of a script -/
+def remAfter (u : Int) : Option Int → List (Int × Nat × Nat) → Option Int
+  | rem, [] => rem
+  | rem, e :: es => remAfter u (rem.map (· - e.1 * u)) es
+
+namespace Aux
+theorem coalLoop_events (pop : Nat) (tail : List Draw) : ∀ (ev : List (Int × Nat × Nat)) (nodes : List GT) (f : Nat) (rem : Option Int),
+    ev.length + 1 ≤ nodes.length → ev.length ≤ f → ValidCoal nodes.length ev → Within (timeUnits pop) rem ev →
+    ∃ nodes', nodes'.length + ev.length = nodes.length ∧
+      coalLoop pop f nodes rem (coalScript ev ++ tail) = coalLoop pop (f - ev.length) nodes' (remAfter (timeUnits pop) rem ev) tail := by
+  intro ev
+  induction ev with
+  | nil => intro nodes f rem _ _ _ _; exact ⟨nodes, by simp, by simp [coalScript, remAfter]⟩
+  | cons e ev ih =>
+    intro nodes f rem hl hf hv hwi
+    obtain ⟨w, i, j⟩ := e
+    obtain ⟨hw, hij, hi, hj, hrest⟩ := hv
+    simp only at hw hij hi hj
+    cases f with
+    | zero => simp at hf
+    | succ f =>
+      have hlen : ¬ nodes.length ≤ 1 := by simp at hl; omega
+      have hi' : i < (nodes.map (GT.addLen (w * timeUnits pop))).length := by simpa using hi
+      have hj' : j < (nodes.map (GT.addLen (w * timeUnits pop))).length := by simpa using hj
+      have hev : ∃ nodes1, coalEvent (w * timeUnits pop) nodes (.samp i j :: (coalScript ev ++ tail)) = .ok (nodes1, coalScript ev ++ tail) := by
+        unfold coalEvent
+        simp only [List.getElem?_eq_getElem hi', List.getElem?_eq_getElem hj']
+        have : (i == j) = false := by simpa using hij
+        simp [this]
+      obtain ⟨nodes1, hev⟩ := hev
+      have hl1 := coalEvent_length _ _ _ _ _ hev
+      have hwp : withinPeriod rem (w * timeUnits pop) = true := by
+        cases rem with
+        | none => rfl
+        | some r => simp only [Within] at hwi; simp [withinPeriod, hwi.1]
+      have hwi' : Within (timeUnits pop) (rem.map (· - w * timeUnits pop)) ev := by
+        cases rem with
+        | none => simp [Within]
+        | some r => simp only [Within] at hwi; simpa using hwi.2
+      obtain ⟨nodes', h1, h2⟩ := ih nodes1 f (rem.map (· - w * timeUnits pop)) (by simp at hl; omega) (by simp at hf; omega)
+        (by have : nodes1.length = nodes.length - 1 := by omega
+            rw [this]; exact hrest) hwi'
+      refine ⟨nodes', by simp; omega, ?_⟩
+      have hw' : ¬ w < 0 := by omega
+      simp only [coalScript, List.flatMap_cons, List.cons_append, List.nil_append, coalLoop, hlen, if_false, hw', hwp, if_true]
+      simp only [coalScript] at hev h2
+      rw [hev]
+      simp only [remAfter, List.length_cons, Nat.add_sub_add_right]
+      exact h2
+end Aux
+
+/-- **`coalesce_nodes` succeeds when the script lets every lineage coalesce**: `len(nodes) − 1` valid events, each within what
+remains of the period (no condition without a period), leave exactly one lineage and the rest of the draws untouched -/
+theorem coalesce_succeeds_all (pop : Nat) (nodes : List GT) (period : Option Int) (ev : List (Int × Nat × Nat)) (tail : List Draw)
+    (hl : ev.length + 1 = nodes.length) (hv : ValidCoal nodes.length ev) (hw : Within (timeUnits pop) period ev) :
+    ∃ out, coalesce pop nodes period (coalScript ev ++ tail) = .ok (out, tail) ∧ out.length = 1 := by
+  obtain ⟨nodes', h1, h2⟩ := Aux.coalLoop_events pop tail ev nodes nodes.length period (by omega) (by omega) hv hw
+  have hne : nodes.isEmpty = false := by cases nodes <;> simp at hl ⊢
+  have hlen1 : nodes'.length = 1 := by omega
+  have hfin : coalLoop pop (nodes.length - ev.length) nodes' (remAfter (timeUnits pop) period ev) tail
+      = .ok (nodes', remAfter (timeUnits pop) period ev, tail) := by
+    cases hf : nodes.length - ev.length with
+    | zero => simp [coalLoop, hlen1]
+    | succ k => simp [coalLoop, hlen1]
+  unfold coalesce
+  simp only [hne, Bool.false_eq_true, if_false, h2, hfin]
+  split
+  · split
+    · exact ⟨_, rfl, by simpa using hlen1⟩
+    · exact ⟨_, rfl, hlen1⟩
+  · exact ⟨_, rfl, hlen1⟩
+
+/-- **`coalesce_nodes` succeeds when the period cuts the script**: some valid events within the period, then a waiting time that
+overshoots what remains: the uncoalesced lineages (`len(nodes) −` number of events) are handed up, the rest of the draws untouched -/
+theorem coalesce_succeeds_cut (pop : Nat) (nodes : List GT) (L : Int) (ev : List (Int × Nat × Nat)) (w' : Int) (tail : List Draw)
+    (hl : ev.length + 1 < nodes.length) (hv : ValidCoal nodes.length ev) (hw : Within (timeUnits pop) (some L) ev) (hw' : 0 ≤ w')
+    (hover : ∀ r, remAfter (timeUnits pop) (some L) ev = some r → r < w' * timeUnits pop) :
+    ∃ out, coalesce pop nodes (some L) (coalScript ev ++ .w w' :: tail) = .ok (out, tail) ∧ out.length + ev.length = nodes.length := by
+  obtain ⟨nodes', h1, h2⟩ := Aux.coalLoop_events pop (.w w' :: tail) ev nodes nodes.length (some L) (by omega) (by omega) hv hw
+  have hne : nodes.isEmpty = false := by cases nodes <;> simp at hl ⊢
+  have hrem : ∃ r, remAfter (timeUnits pop) (some L) ev = some r := by
+    have : ∀ (es : List (Int × Nat × Nat)) (r : Int), ∃ r', remAfter (timeUnits pop) (some r) es = some r' := by
+      intro es
+      induction es with
+      | nil => intro r; exact ⟨r, rfl⟩
+      | cons e es ih => intro r; simpa [remAfter] using ih (r - e.1 * timeUnits pop)
+    exact this ev L
+  obtain ⟨r, hr⟩ := hrem
+  have hov := hover r hr
+  have hfin : coalLoop pop (nodes.length - ev.length) nodes' (some r) (.w w' :: tail) = .ok (nodes', some r, tail) := by
+    have hk : nodes.length - ev.length = (nodes.length - ev.length - 1) + 1 := by omega
+    rw [hk]
+    have h2' : ¬ nodes'.length ≤ 1 := by omega
+    have h3 : ¬ w' < 0 := by omega
+    have h4 : withinPeriod (some r) (w' * timeUnits pop) = false := by simp [withinPeriod]; omega
+    simp [coalLoop, h2', h3, h4]
+  unfold coalesce
+  rw [hr] at h2
+  simp only [hne, Bool.false_eq_true, if_false, h2, hfin]
+  split
+  · exact ⟨_, rfl, by simp; omega⟩
+  · exact ⟨_, rfl, by omega⟩
+
+/-- non-vacuity: three lineages, period 10 in a population of 2: one event at 2·2 = 4 ≤ 10, then a waiting time 4·2 = 8 > 6 -/
+example : (coalesce 2 [.leaf 0 1 0, .leaf 0 2 0, .leaf 0 3 0] (some 10) (coalScript [(2, 0, 2)] ++ [.w 4, .w 99])).toOption.map
+    (fun r => (r.1.length, r.2)) = some (2, [.w 99]) := by decide
+
+
+/-! ### last round: the contained coalescent succeeds on well-formed trees and scripts -/
+
+
+/-- a draw script shaped like the containing tree: for the edge above each node the coalescence events that happen inside it and,
+if the period cuts the process short, the waiting time that overshoots it (`stop`) -/
+inductive SScr where
+  | node (ev : List (Int × Nat × Nat)) (stop : Option Int) (kids : List SScr)
+
+mutual
+/-- the draws in the order the contained coalescent consumes them: the children's edges first, then the node's own edge -/
+def SScr.flat : SScr → List Draw
+  | .node ev stop kids => SScr.flatL kids ++ (coalScript ev ++ (match stop with | some w => [.w w] | none => []))
+def SScr.flatL : List SScr → List Draw
+  | [] => []
+  | k :: ks => SScr.flat k ++ SScr.flatL ks
+end
+
+mutual
+/-- number of lineages the edge above a node hands up under a script -/
+def outN : ST → SScr → Nat
+  | .node _ _ _ genes cs, .node ev _ kids => (genes.length + outNL cs kids) - ev.length
+def outNL : List ST → List SScr → Nat
+  | [], _ => 0
+  | c :: cs, ks => (match ks with | k :: _ => outN c k | [] => 0) + outNL cs ks.tail
+end
+
+mutual
+/-- the script is well formed for the (non-root) edge above a node: the children's scripts are, the events are valid for the pool
+that gathers at the node (own genes + what the children hand up) and stay within the edge's period, and either every lineage
+coalesces (`stop = none`) or a final waiting time overshoots what remains of the period -/
+def OKEdge : ST → SScr → Prop
+  | .node _ len pop genes cs, .node ev stop kids =>
+    OKKids cs kids ∧ ValidCoal (genes.length + outNL cs kids) ev ∧ Within (timeUnits pop) len ev ∧
+    (match stop with
+     | none => ev.length + 1 = genes.length + outNL cs kids
+     | some w' => ∃ L, len = some L ∧ ev.length + 1 < genes.length + outNL cs kids ∧ 0 ≤ w' ∧
+                    ∀ r, remAfter (timeUnits pop) (some L) ev = some r → r < w' * timeUnits pop)
+def OKKids : List ST → List SScr → Prop
+  | [], ks => ks = []
+  | c :: cs, ks => (match ks with | k :: _ => OKEdge c k | [] => False) ∧ OKKids cs ks.tail
+end
+
+/-- well formed for the whole containing tree: at the root everything that arrives coalesces, without a period -/
+def OKRoot : ST → SScr → Prop
+  | .node _ _ _ genes cs, .node ev stop kids =>
+    OKKids cs kids ∧ ValidCoal (genes.length + outNL cs kids) ev ∧ stop = none ∧ ev.length + 1 = genes.length + outNL cs kids
+
+namespace Aux
+mutual
+theorem edge_succeeds : ∀ (S : ST) (k : SScr) (tail : List Draw), OKEdge S k →
+    ∃ out, containedEdge S (k.flat ++ tail) = .ok (out, tail) ∧ out.length = outN S k
+  | .node i len pop genes cs, .node ev stop kids, tail, h => by
+    simp only [OKEdge] at h
+    obtain ⟨hk, hv, hw, hs⟩ := h
+    cases stop with
+    | none =>
+      simp only at hs
+      obtain ⟨inc, e1, e2⟩ := kids_succeeds cs kids (coalScript ev ++ [] ++ tail) hk
+      simp only [containedEdge, SScr.flat, List.append_assoc, List.nil_append] at e1 ⊢
+      rw [e1]
+      simp only
+      have hlen : (genes.map (fun g => GT.leaf g.1 g.2 0) ++ inc).length = genes.length + outNL cs kids := by simp [e2]
+      obtain ⟨out, o1, o2⟩ := coalesce_succeeds_all pop _ len ev tail (by rw [hlen]; exact hs) (by rw [hlen]; exact hv) hw
+      refine ⟨out, o1, ?_⟩
+      simp only [outN]; omega
+    | some w' =>
+      simp only at hs
+      obtain ⟨L, rfl, h1, h2, h3⟩ := hs
+      obtain ⟨inc, e1, e2⟩ := kids_succeeds cs kids (coalScript ev ++ [Draw.w w'] ++ tail) hk
+      simp only [containedEdge, SScr.flat, List.append_assoc, List.cons_append, List.nil_append] at e1 ⊢
+      rw [e1]
+      simp only
+      have hlen : (genes.map (fun g => GT.leaf g.1 g.2 0) ++ inc).length = genes.length + outNL cs kids := by simp [e2]
+      obtain ⟨out, o1, o2⟩ := coalesce_succeeds_cut pop _ L ev w' tail (by rw [hlen]; exact h1) (by rw [hlen]; exact hv) hw h2 h3
+      refine ⟨out, o1, ?_⟩
+      simp only [outN]; omega
+theorem kids_succeeds : ∀ (cs : List ST) (ks : List SScr) (tail : List Draw), OKKids cs ks →
+    ∃ out, containedKids cs (SScr.flatL ks ++ tail) = .ok (out, tail) ∧ out.length = outNL cs ks
+  | [], ks, tail, h => by
+    simp only [OKKids] at h
+    subst h
+    exact ⟨[], by simp [containedKids, SScr.flatL], by simp [outNL]⟩
+  | c :: cs, ks, tail, h => by
+    simp only [OKKids] at h
+    cases ks with
+    | nil => simp at h
+    | cons k ks' =>
+      simp only [List.tail_cons] at h
+      obtain ⟨hc, hr⟩ := h
+      obtain ⟨up, u1, u2⟩ := edge_succeeds c k (SScr.flatL ks' ++ tail) hc
+      obtain ⟨ups, v1, v2⟩ := kids_succeeds cs ks' tail hr
+      refine ⟨up ++ ups, ?_, by simp [outNL, u2, v2]⟩
+      simp only [containedKids, SScr.flatL, List.append_assoc]
+      rw [u1]
+      simp only
+      rw [v1]
+end
+end Aux
+
+/-- **the contained coalescent succeeds on every well-formed containing tree and script**: if the script is well formed for the
+containing tree (`OKRoot`: in every branch valid coalescence events within the branch's period, followed — unless all lineages
+have coalesced — by a waiting time that overshoots it; at the root everything coalesces), `contained` returns a gene tree.
+With `contained_no_early_join` and `contained_leaves` that tree respects the divergences and carries every sampled gene once. -/
+theorem contained_succeeds (S : ST) (k : SScr) (h : OKRoot S k) : ∃ g, contained S k.flat = .ok g := by
+  match S, k, h with
+  | .node i len pop genes cs, .node ev stop kids, h =>
+    simp only [OKRoot] at h
+    obtain ⟨hk, hv, rfl, hs⟩ := h
+    obtain ⟨inc, e1, e2⟩ := Aux.kids_succeeds cs kids (coalScript ev ++ []) hk
+    have hlen : (genes.map (fun g => GT.leaf g.1 g.2 0) ++ inc).length = genes.length + outNL cs kids := by simp [e2]
+    obtain ⟨out, o1, o2⟩ := coalesce_succeeds_all pop _ none ev [] (by rw [hlen]; exact hs) (by rw [hlen]; exact hv) (by simp [Within])
+    simp only [contained, SScr.flat, List.append_nil] at e1 ⊢
+    rw [e1]
+    simp only
+    simp only [List.append_nil] at o1
+    rw [o1]
+    match out, o2 with
+    | [t], _ => exact ⟨t, rfl⟩
+
+/-- non-vacuity: the two-population tree of `exampleST`; the two genes of population 2 coalesce inside their branch
+(2·1 ≤ 6, nothing left to overshoot), the single gene of population 1 needs no draw, the root joins the two survivors -/
+def exampleScr : SScr := .node [(3, 0, 1)] none [.node [] none [], .node [(1, 0, 1)] none []]
+
+example : OKRoot exampleST exampleScr := by
+  simp [OKRoot, OKKids, OKEdge, exampleST, exampleScr, outNL, outN, ValidCoal, Within, timeUnits]
+example : exampleScr.flat = [.w 1, .samp 0 1, .w 3, .samp 0 1] := by decide
+
+/-- a script in which the period cuts a branch short: population 2's two genes do not coalesce within 6 (waiting time 4·2 = 8),
+so three lineages meet at the root and two events join them -/
+def exampleScrCut : SScr := .node [(1, 0, 1), (2, 0, 1)] none [.node [] none [], .node [] (some 4) []]
+
+example : OKRoot exampleST exampleScrCut := by
+  simp [OKRoot, OKKids, OKEdge, exampleST, exampleScrCut, outNL, outN, ValidCoal, Within, timeUnits, remAfter]
+example : (contained exampleST exampleScrCut.flat).toOption.map (fun g => g.leaves) = some [(2, 2), (1, 1), (2, 1)] := by decide
+
+
+/-! ### last round: evolving rates below zero — the `state` failure is the code's ZeroDivisionError -/
+open BT
+
+
+/-- the lookup invariant of `birth_death_tree` WITHOUT any assumption on the rates (they may have evolved below zero): distinct
+fresh ids on the entries of `extant_tips`, each naming an alive tip -/
+structure LInv (P : BDParams) (s : BDState) : Prop where
+  nodup : (s.extant.map Tip.id).Nodup
+  fresh : ∀ t ∈ s.extant, t.id < s.next
+  alive : ∀ t ∈ s.extant, s.tree.hasAlive t.id = true
+  ne : s.extant ≠ []
+  nextLB : P.start.maxId < s.next
+
+theorem SInv.toLInv {P : BDParams} {s : BDState} (h : SInv P s) : LInv P s :=
+  ⟨h.nodup, h.fresh, h.alive, h.ne, h.nextLB⟩
+
+/-- `Reach P s ds s' ds'`: the loop gets from state `s` with draws `ds` to state `s'` with draws `ds'` by continued passes -/
+inductive Reach (P : BDParams) : BDState → List Draw → BDState → List Draw → Prop
+  | refl (s : BDState) (ds : List Draw) : Reach P s ds s ds
+  | step (s s1 s2 : BDState) (ds ds1 ds2 : List Draw) : bdIter P s ds = .ok (.cont s1 ds1) → Reach P s1 ds1 s2 ds2 → Reach P s ds s2 ds2
+
+namespace Aux
+theorem lbirth (P : BDParams) (s : BDState) (nd : Tip) (ds : List Draw) (hS : LInv P s) (hnd : nd ∈ s.extant) :
+    bdBirth s nd (removeTip nd.id s.extant) ds ≠ .error .state ∧
+    ∀ s' ds', bdBirth s nd (removeTip nd.id s.extant) ds = .ok (.cont s' ds') → LInv P s' := by
+  obtain ⟨t, ht⟩ := splitFirst_some nd.id s.next (s.next + 1) 0 s.tree (hS.alive nd hnd)
+  obtain ⟨a1, a2, a3⟩ := splitFirst_hasAlive _ _ _ _ _ _ ht
+  have hsub := removeTip_sublist nd.id s.extant
+  unfold bdBirth
+  split
+  · rw [ht]
+    refine ⟨by simp, ?_⟩
+    intro s' ds' h
+    simp at h
+    obtain ⟨rfl, rfl⟩ := h
+    refine ⟨?_, ?_, ?_, by simp, by have := hS.nextLB; show P.start.maxId < s.next + 2; omega⟩
+    · simp only [List.map_append, List.map_cons, List.map_nil]
+      rw [List.nodup_append]
+      refine ⟨(hS.nodup.sublist (hsub.map Tip.id)), by simp, ?_⟩
+      intro x hx y hy
+      simp only [List.mem_map] at hx
+      obtain ⟨t0, ht0, rfl⟩ := hx
+      have := hS.fresh t0 (hsub.subset ht0)
+      simp at hy
+      omega
+    · intro t0 ht0
+      simp only [List.mem_append, List.mem_cons, List.mem_nil_iff, or_false] at ht0
+      rcases ht0 with h | rfl | rfl
+      · have := hS.fresh t0 (hsub.subset h); show t0.id < s.next + 2; omega
+      · simp
+      · simp
+    · intro t0 ht0
+      simp only [List.mem_append, List.mem_cons, List.mem_nil_iff, or_false] at ht0
+      rcases ht0 with h | rfl | rfl
+      · exact a1 t0.id (removeTip_ne nd.id s.extant hS.nodup t0 h) (hS.alive t0 (hsub.subset h))
+      · exact a2
+      · exact a3
+  · refine ⟨by split <;> simp, ?_⟩
+    intro s' ds' h
+    simp at h
+
+theorem linit_at (P : BDParams) (hG : GoodStart P) (nx : Nat) (h : P.start.maxId < nx) : LInv P { bdInit P with next := nx } :=
+  (init_sinv_at P hG nx h).toLInv
+
+theorem ldeath (P : BDParams) (hG : GoodStart P) (s : BDState) (nd : Tip) (ds : List Draw) (hS : LInv P s) (hnd : nd ∈ s.extant) :
+    bdDeath P s nd (removeTip nd.id s.extant) ds ≠ .error .state ∧
+    ∀ s' ds', bdDeath P s nd (removeTip nd.id s.extant) ds = .ok (.cont s' ds') → LInv P s' := by
+  obtain ⟨t, ht⟩ := killFirst_some nd.id s.tree (hS.alive nd hnd)
+  have a1 := killFirst_hasAlive _ _ _ ht
+  have hsub := removeTip_sublist nd.id s.extant
+  unfold bdDeath
+  split
+  · refine ⟨by simp, ?_⟩
+    intro s' ds' h
+    simp at h
+    obtain ⟨rfl, rfl⟩ := h
+    exact linit_at P hG s.next hS.nextLB
+  · rename_i hne
+    rw [ht]
+    refine ⟨by simp, ?_⟩
+    intro s' ds' h
+    simp at h
+    obtain ⟨rfl, rfl⟩ := h
+    refine ⟨hS.nodup.sublist (hsub.map Tip.id), fun t0 h0 => hS.fresh t0 (hsub.subset h0), ?_, ?_, hS.nextLB⟩
+    · intro t0 h0
+      exact a1 t0.id (removeTip_ne nd.id s.extant hS.nodup t0 h0) (hS.alive t0 (hsub.subset h0))
+    · intro he; simp at he; simp [he] at hne
+
+/-- the event step under arbitrary rates: the only internal failure is the choice itself, exactly when the rates sum to zero -/
+theorem levent (P : BDParams) (hG : GoodStart P) (s : BDState) (ds : List Draw) (hS : LInv P s) :
+    (bdEvent P s ds = .error .state → (rates s.extant).sum = 0) ∧
+    ∀ s' ds', bdEvent P s ds = .ok (.cont s' ds') → LInv P s' := by
+  unfold bdEvent
+  split
+  · rename_i hz
+    exact ⟨fun _ => by simpa using hz, by simp⟩
+  split
+  · exact ⟨by simp, by simp⟩
+  · rename_i p q ds2
+    split
+    · exact ⟨by simp, by simp⟩
+    · rename_i hpq
+      simp at hpq
+      split
+      · rename_i hnone
+        exact ⟨fun _ => (wicN_none_iff p q _ (by omega) (by omega)).mp hnone, by simp⟩
+      · rename_i k hk
+        have hsum : (rates s.extant).sum ≠ 0 := by
+          intro h0
+          have := (wicN_none_iff p q (rates s.extant) (by omega) (by omega)).mpr h0
+          rw [this] at hk; simp at hk
+        -- the chosen index is in range: `wicN` is `wic` on the rates or on their negation
+        have hklt : k < 2 * s.extant.length := by
+          unfold wicN at hk
+          rw [if_neg hsum] at hk
+          split at hk
+          · rename_i hpos
+            have := wic_lt_length p q _ k (by omega) (by omega) hk
+            rwa [rates_length] at this
+          · rename_i hnpos
+            have hneg : 0 ≤ ((rates s.extant).map (fun w => -w)).sum := by
+              have : ∀ (l : List Int), (l.map (fun w => -w)).sum = - l.sum := by
+                intro l
+                induction l with
+                | nil => simp
+                | cons a l ih => simp [ih]; omega
+              rw [this]; omega
+            have := wic_lt_length p q _ k (by omega) hneg hk
+            simpa [rates_length] using this
+        have hidx : k / 2 < s.extant.length := by omega
+        rw [List.getElem?_eq_getElem hidx]
+        simp only
+        have hnd : s.extant[k / 2] ∈ s.extant := List.getElem_mem hidx
+        split
+        · obtain ⟨h1, h2⟩ := lbirth P s _ ds2 hS hnd
+          exact ⟨fun h => absurd h h1, h2⟩
+        · obtain ⟨h1, h2⟩ := ldeath P hG s _ ds2 hS hnd
+          exact ⟨fun h => absurd h h1, h2⟩
+  · exact ⟨by simp, by simp⟩
+
+theorem liter (P : BDParams) (hG : GoodStart P) (s : BDState) (ds : List Draw) (hS : LInv P s) :
+    (bdIter P s ds = .error .state → (rates s.extant).sum = 0) ∧
+    ∀ s' ds', bdIter P s ds = .ok (.cont s' ds') → LInv P s' := by
+  unfold bdIter
+  split
+  · exact ⟨by simp, by simp⟩
+  · split
+    · exact ⟨by simp, by simp⟩
+    · rename_i w ds1
+      split
+      · exact ⟨by simp, by simp⟩
+      · simp only
+        have hS1 : LInv P { s with tree := s.tree.addAlive w, total := s.total + w } :=
+          ⟨hS.nodup, hS.fresh, fun t ht => by simp [hasAlive_addAlive, hS.alive t ht], hS.ne, hS.nextLB⟩
+        split
+        · exact levent P hG _ ds1 hS1
+        · refine ⟨by simp, ?_⟩
+          intro s' ds' h
+          simp at h
+          obtain ⟨rfl, _⟩ := h
+          exact hS1
+    · exact ⟨by simp, by simp⟩
+end Aux
+
+/-- **the `state` failure under evolving rates, one pass**: whatever the rates have become (negative ones included), every lookup
+of a pass through `birth_death_tree` succeeds; the pass fails internally only in the event choice and only when the rates of the
+extant lineages sum to zero — where the code raises `ZeroDivisionError` (`event_rates[i] / rate_of_any_event`) -/
+theorem bd_iter_state_error (P : BDParams) (hG : GoodStart P) (s : BDState) (ds : List Draw) (hS : LInv P s)
+    (h : bdIter P s ds = .error .state) : (rates s.extant).sum = 0 := (Aux.liter P hG s ds hS).1 h
+
+/-- and conversely: with rates summing to zero, an event that is attempted (`w ≥ 0`, event allowed by `max_time`, a uniform draw
+`0 ≤ p/q < 1`) fails -/
+theorem bd_iter_zero_sum_fails (P : BDParams) (s : BDState) (w p q : Int) (rest : List Draw) (h0 : (rates s.extant).sum = 0)
+    (hstop : (bdStop P s.extant.length s.total || xStop P s.extant.length s.extinct.length) = false) (hw : 0 ≤ w)
+    (hev : eventAllowed P (s.total + w) = true) (hp : 0 ≤ p) (hpq : p < q) :
+    bdIter P s (.w w :: .u p q :: rest) = .error .state := by
+  unfold bdIter
+  rw [hstop]
+  simp only [Bool.false_eq_true, if_false]
+  rw [if_neg (by omega)]
+  simp only [hev, if_true]
+  unfold bdEvent
+  simp [h0]
+
+/-- **the `state` failure under evolving rates, whole loop**: if the loop of `birth_death_tree` fails internally (gauss draws of
+either sign, any rates), it has reached a state in which the rates of the extant lineages sum to zero: the model's `state` is
+exactly the code's `ZeroDivisionError`.  (Fuel is excluded by `bd_fuel_suffices`.) -/
+theorem bd_state_error_iff_zero_rate_sum (P : BDParams) (hG : GoodStart P) : ∀ (f : Nat) (s : BDState) (ds : List Draw), LInv P s →
+    bdLoop P f s ds = .error .state → ∃ s' ds', Reach P s ds s' ds' ∧ LInv P s' ∧ (rates s'.extant).sum = 0 := by
+  intro f
+  induction f with
+  | zero => intro s ds _ h; simp [bdLoop] at h
+  | succ f ih =>
+    intro s ds hS h
+    obtain ⟨h1, h2⟩ := Aux.liter P hG s ds hS
+    simp only [bdLoop] at h
+    split at h
+    · rename_i e he
+      simp at h; subst h
+      exact ⟨s, ds, Reach.refl s ds, hS, h1 he⟩
+    · simp at h
+    · rename_i s1 ds1 hit
+      obtain ⟨s', ds', r, l, z⟩ := ih s1 ds1 (h2 s1 ds1 hit) h
+      exact ⟨s', ds', Reach.step s s1 s' ds ds1 ds' hit r, l, z⟩
+
+/-- non-vacuity: death rate 1, birth rate 2; the first birth gives both daughters birth-rate mutation −3 and death-rate mutation 0
+(rates −1, 1, −1, 1: sum 0); the next event attempt is the code's ZeroDivisionError -/
+example : (match bdRun { nTips := some 3, maxTime := none, b := 2, d := 1 } 0
+    [.w 1, .u 1 8, .g (-3), .g 0, .g (-3), .g 0, .w 1, .u 1 2] with | .error e => some e | .ok _ => none) = some Err.state := by decide
+
+/-- and rates gone negative with a non-zero sum do not fail: daughters with rates (−1, 2), (−1, 2), sum 2; both die (a negative
+birth rate is never chosen while the sum is positive), the process restarts and grows to three tips -/
+example : (match bdRun { nTips := some 3, maxTime := none, b := 2, d := 1 } 0
+    [.w 1, .u 1 8, .g (-3), .g 1, .g (-3), .g 1, .w 1, .u 1 8, .w 1, .u 1 8,
+     .w 1, .u 1 8, .g 0, .g 0, .g 0, .g 0, .w 1, .u 1 8, .g 0, .g 0, .g 0, .g 0, .perm [], .perm [0, 1, 2]] with
+    | .error _ => false | .ok r => r.tree.nLeaves == 3) = true := by decide
+
+
+
+/-- **errors of a `birth_death_tree` run under arbitrary rate evolution** (gauss draws of either sign; this is
+`bd_only_script_errors` without its `GaussNonneg` hypothesis): the run fails on its draw script, or — the single internal
+failure — it has reached a state whose rates sum to zero, where the code raises `ZeroDivisionError` -/
+theorem bd_errors_any_rates (P : BDParams) (hG : GoodStart P) (n0 : Nat) (ds : List Draw) (e : Err) (h : bdRun P n0 ds = .error e) :
+    e = .draws ∨ e = .kind ∨
+    (e = .state ∧ ∃ s' ds', Reach P (bdInit P) ds s' ds' ∧ LInv P s' ∧ (rates s'.extant).sum = 0) := by
+  have hfuel := bd_fuel_suffices P hG (ds.length + 1) (bdInit P) ds (bd_init_inv P hG) (by omega)
+  unfold bdRun at h
+  split at h
+  · rename_i e' he
+    simp at h; subst h
+    cases e' with
+    | draws => simp
+    | kind => simp
+    | fuel => exact absurd he hfuel
+    | arg => exact absurd he (Aux.loop_not_arg P _ _ _)
+    | state =>
+      exact Or.inr (Or.inr ⟨rfl, bd_state_error_iff_zero_rate_sum P hG _ _ _ (bd_init_sinv P hG).toLInv he⟩)
+  · rename_i s rest hl
+    obtain ⟨hI, _⟩ := bd_loop_inv P hG _ _ _ _ _ (bd_init_inv P hG) hl
+    have h1 : 1 ≤ s.tree.aliveCount := by rw [← hI.count]; exact hI.pos
+    split at h
+    · rcases Aux.finishRetain_errors n0 s.tree rest e h with h | h
+      · exact Or.inl h
+      · exact Or.inr (Or.inl h)
+    · rcases Aux.finish_errors n0 s.tree rest e h1 h with h | h
+      · exact Or.inl h
+      · exact Or.inr (Or.inl h)
 
 end DendroModel.C18
